@@ -77,9 +77,34 @@ def run_cases(args):
     rnd = random.Random(seed)
     cg = Cg(rnd)
     tr = []
+    def warm(fn, evs):
+        """the same Event objects went through an earlier call while they held OTHER instants, durations and data, and
+        were then given their present values through the public setters"""
+        if rnd.random() >= 0.25 or not evs:
+            return
+        saved = [(e, e.timestamp, e.duration, copy.deepcopy(e.data)) for e in evs]
+        for k, e in enumerate(evs):
+            e.timestamp = e.timestamp + timedelta(milliseconds=cg.c.scale * rnd.choice([1, 3, -2]))
+            e.duration = e.duration + timedelta(milliseconds=cg.c.scale * (k % 3))
+            e.data = {kk: copy.deepcopy(VALS[rnd.choice(["v1", "v2", "im1"])]) for kk in e.data}
+        try:
+            fn(evs)
+        except Exception:
+            pass
+        for e, t, d, dt in saved:
+            e.timestamp, e.duration, e.data = t, d, dt
+
     def one_case(c):
         op = c[0]
         inp = cg.mk(c[1], Event)
+        if op == "merge":
+            warm(lambda x: merge_events_by_keys(x, list(c[2])), inp)
+        elif op == "chunk":
+            warm(lambda x: chunk_events_by_key(x, c[2]), inp)
+        elif op == "sort":
+            warm(lambda x: (sort_by_timestamp(x), sort_by_duration(x)), inp)
+        elif op == "sum":
+            warm(lambda x: sum_durations(x), inp)
         pin = cg.proj(inp)
         if op == "merge":
             out = merge_events_by_keys(inp, list(c[2]))
